@@ -315,6 +315,7 @@ type CleanPlan struct {
 	DirtyAddressed bool            // an addressed file is no longer predicted
 	DirtyIDs       map[string]bool // ids that may live in such a file: nothing is demanded about their listing
 	DirtyTests     map[string]bool
+	dirtyFiles     map[string]*dirtyInfo
 	// items that must survive and must not be listed, with the property that
 	// protects them
 	KeepFiles map[string]string
@@ -368,11 +369,18 @@ func (lf *Life) PlanClean(d *Disk, ran []string, skipped []string) *CleanPlan {
 		if f.Dirty {
 			if addr, isAddr := lf.Addressed[path]; isAddr {
 				p.DirtyAddressed = true
+				di := &dirtyInfo{ids: map[string]bool{}, tests: map[string]bool{}}
+				if p.dirtyFiles == nil {
+					p.dirtyFiles = map[string]*dirtyInfo{}
+				}
+				p.dirtyFiles[path] = di
 				for _, e := range f.Entries {
 					p.DirtyIDs[e.ID()] = true
+					di.ids[e.ID()] = true
 				}
 				for t := range addr {
 					p.DirtyTests[t] = true
+					di.tests[t] = true
 				}
 			}
 			p.FreeFiles[path] = true
@@ -481,6 +489,28 @@ func (d *Disk) ApplyClean(p *CleanPlan) {
 		}
 		f.Entries = out
 	}
+}
+
+type dirtyInfo struct {
+	ids   map[string]bool
+	tests map[string]bool
+}
+
+// MaybeDirtyElsewhere: the id may belong to an unpredicted addressed file other than file.
+func (p *CleanPlan) MaybeDirtyElsewhere(id, file string) bool {
+	test := id
+	if i := strings.LastIndex(id, " - "); i >= 0 {
+		test = id[:i]
+	}
+	for f, di := range p.dirtyFiles {
+		if f == file {
+			continue
+		}
+		if di.ids[id] || di.tests[test] {
+			return true
+		}
+	}
+	return false
 }
 
 // MaybeDirty: the id may belong to an addressed file the model no longer predicts.
